@@ -1,5 +1,6 @@
 //! Correspondence harness (DESIGN §2.3): drives the real anemo code in-process (hooks on) and emits
 //! the op lines for the Lean model together with the implementation's canonical answers.
+mod admission;
 mod codegen;
 mod fabric;
 mod net;
@@ -41,6 +42,7 @@ fn main() -> anyhow::Result<()> {
         "C07" => wire::run_c07(&mut run, replay.as_deref(), &corpus)?,
         "C04" => peers::run_c04(&mut run, replay.as_deref())?,
         "C05" => peers::run_c05(&mut run, replay.as_deref())?,
+        "C10" => admission::run_c10(&mut run, replay.as_deref())?,
         "C11" => timeouts::run_c11(&mut run)?,
         "C16" => router::run_c16(&mut run, replay.as_deref())?,
         "C17" => codegen::run_c17(&mut run)?,
